@@ -2,12 +2,7 @@
    Request  = [name, arg...]          Reply = [0, value] | [1, exception code] | [2] (unknown request / bad arguments) *)
 Require Import Coq.Strings.String Coq.Strings.Ascii.
 From Verif Require Import Base.Prim Cbor.Codec.
-
-(* ASCII string literal -> byte list *)
-Definition s2b (s : String.string) : bytes := map (fun a => Z.of_N (Ascii.N_of_ascii a)) (String.list_ascii_of_string s).
-Definition is (name : bytes) (s : String.string) : bool := list_eqb name (s2b s).
-Arguments s2b s%string.
-Arguments is name s%string.
+From Verif Require Export Base.Str.
 
 Definition exn_code (e : exn) : Z :=
   match e with
